@@ -147,7 +147,11 @@ class SQLiteAlterTableSQLResult(AlterTableSQLResult):
             for field in added_field_db_indexes:
                 sql += self.normalize_sql(evolver.create_index(model, field))
 
-            return self.pre_sql + self.sql + sql + self.post_sql
+            # Like in a table rebuild, the indexes must be created before
+            # running the queued SQL. That SQL may rename the column (when
+            # db_column is changed along with db_index), and the statements
+            # for the index were built using the old column name.
+            return self.pre_sql + sql + self.sql + self.post_sql
 
         # Remove any Generic Fields.
         old_fields = [
